@@ -7,7 +7,11 @@ RNorm(q) == LET g == Gcd(IF q[1] < 0 THEN -q[1] ELSE q[1], q[2]) IN IF g = 0 THE
 R(n) == <<n, 1>>
 RAdd(a, b) == RNorm(<<a[1] * b[2] + b[1] * a[2], a[2] * b[2]>>)
 RSub(a, b) == RNorm(<<a[1] * b[2] - b[1] * a[2], a[2] * b[2]>>)
-RMul(a, b) == RNorm(<<a[1] * b[1], a[2] * b[2]>>)
+RMul(a, b) ==      \* cross-reduce first: keeps intermediate products inside 32 bit
+    LET g1 == Gcd(IF a[1] < 0 THEN -a[1] ELSE a[1], b[2])  g2 == Gcd(IF b[1] < 0 THEN -b[1] ELSE b[1], a[2])
+        x1 == IF g1 = 0 THEN a[1] ELSE a[1] \div g1   y2 == IF g1 = 0 THEN b[2] ELSE b[2] \div g1
+        y1 == IF g2 = 0 THEN b[1] ELSE b[1] \div g2   x2 == IF g2 = 0 THEN a[2] ELSE a[2] \div g2
+    IN RNorm(<<x1 * y1, x2 * y2>>)
 RDiv(a, b) == IF b[1] > 0 THEN RNorm(<<a[1] * b[2], a[2] * b[1]>>) ELSE RNorm(<<-(a[1] * b[2]), a[2] * (-b[1])>>)
 REq(a, b) == a[1] * b[2] = b[1] * a[2]
 RLe(a, b) == a[1] * b[2] <= b[1] * a[2]
